@@ -551,8 +551,10 @@ class NetworkMixin(RadioMixin):
         result: Union[bool, bytearray, List[Union[bool, bytearray]]] = False
         if to_node == self._addr and not is_multicast:
             return self.queue.enqueue(self.frame_buf)
-        self._rf24.auto_ack = 0x3E + (not is_multicast)
+        # leave RX mode first: with auto-ack enabled on pipe 0 while still listening, a multicast
+        # arriving in between would be acknowledged
         self.listen = False
+        self._rf24.auto_ack = 0x3E + (not is_multicast)
         # print("Sending", self.frame_buf.header.to_string(), "to pipe", to_pipe)
         self._rf24.open_tx_pipe(self._pipe_address(to_node, to_pipe))
         if len(self.frame_buf.message) <= MAX_FRAG_SIZE:
